@@ -89,4 +89,12 @@ impl Prop for C09 {
     fn from_kv(kv: &Kv) -> Result<PInput, String> {
         PInput::from_kv(kv)
     }
+
+    fn exhaustive_desc(_tier: Tier) -> String {
+        format!("the complete single-mutation neighbourhood of 6 real meter payloads under the grammar-level catalogue of {} mutations at every node, checksums recomputed", crate::gen::tree::catalogue().len())
+    }
+
+    fn exhaustive(_tier: Tier, shard: usize, nshards: usize, f: &mut dyn FnMut(&PInput) -> bool) {
+        crate::gen::tree::neighbourhood(shard, nshards, &mut |bytes, how| f(&PInput { bytes, how }));
+    }
 }
